@@ -39,6 +39,11 @@ fn gen_change(rng: &mut Rng, text: &str) -> String {
     let a = gen_pos(rng, text);
     let b = if rng.chance(1, 3) { a } else { gen_pos(rng, text) };
     let (s, e) = if a <= b { (a, b) } else { (b, a) };
+    if rng.chance(1, 4) {
+        // the deprecated `rangeLength` member, as some clients still send it: a number of UTF-16 units (here: any
+        // small number — the range decides, the member must not be believed)
+        return format!("R:{}:{}:{}:{}:{}:{}", s.0, s.1, e.0, e.1, hex_str(&ins), rng.below(40));
+    }
     format!("R:{}:{}:{}:{}:{}", s.0, s.1, e.0, e.1, hex_str(&ins))
 }
 
@@ -159,6 +164,15 @@ fn parse_change(s: &str) -> Option<TextDocumentContentChangeEvent> {
                 end: Position { line: l2.parse().ok()?, character: c2.parse().ok()? },
             }),
             range_length: None,
+            text: unhex_str(t)?,
+        }),
+        // with the deprecated `rangeLength` member (UTF-16 units of the replaced text, or whatever a client sends)
+        ["R", l1, c1, l2, c2, t, len] => Some(TextDocumentContentChangeEvent {
+            range: Some(Range {
+                start: Position { line: l1.parse().ok()?, character: c1.parse().ok()? },
+                end: Position { line: l2.parse().ok()?, character: c2.parse().ok()? },
+            }),
+            range_length: Some(len.parse().ok()?),
             text: unhex_str(t)?,
         }),
         _ => None,
